@@ -8,6 +8,7 @@ that a (serially emulated) ghost-cell exchange produces.  Monitor: the property 
 on the real code (tiling, split/combine identity, neighbour symmetry/periodicity, operator on the
 sub-grids == operator on the whole grid)."""
 import itertools
+import json
 import math
 
 import numpy as np
@@ -131,11 +132,23 @@ def field_codes(shape, ncomp):
 
 def mesh_worker(spec):
     """build the mesh with the real code; return every observation the property talks about
-    plus the verdicts of the property monitor"""
+    plus the verdicts of the property monitor.  An exception of the real code while splitting or
+    combining is a failure of the property (recorded), not of the check."""
+    import traceback
+
+    obs = {"error": None, "monitor": [], "raised": None}
+    try:
+        _mesh_worker(spec, obs)
+    except Exception as e:  # noqa: BLE001
+        obs["raised"] = f"{type(e).__name__}: {e} :: {traceback.format_exc()[-700:]}"
+        obs["monitor"].append(f"the real code raised {type(e).__name__}: {str(e)[:200]}")
+    return obs
+
+
+def _mesh_worker(spec, obs):
     import pde
     from pde.grids._mesh import GridMesh
 
-    obs = {"error": None, "monitor": []}
     fail = obs["monitor"].append
     grid = make_grid(spec)
     try:
@@ -439,6 +452,8 @@ def classify_op_error(e):
         return "curvature-one-cell"
     if "not defined with the same rank" in msg:
         return "periodic-rank"
+    if "unexpected keyword argument 'const'" in msg:
+        return "expression-const"
     return "other"
 
 
@@ -714,9 +729,25 @@ def bc_for(rng, spec, rank_in, grid_axes):
         kinds = ["value", "derivative", "neumann", "dirichlet", "mixed"]
         if spec["shape"][ax] >= 2:  # CurvatureBC needs two support points on any grid
             kinds.append("curvature")
+        others = [n for n in grid_axes if n != name]
         if rank_in == 0:
+            kinds += ["expr-virtual", "expr-mixed", "expr-value", "expr-derivative"]
+
+            def expr():
+                # depends on the coordinates along the face, so it is sensitive to the sub-grid's geometry
+                c = rng.choice(others) if others else None
+                return rng.choice([f"sin({c}) + 0.5", f"{c}**2 - 1", f"0.25*{c} + 1"]) if c else rng.choice(["1.5", "-0.25"])
+
             def one():
                 k = rng.choice(kinds)
+                if k == "expr-virtual":
+                    return {"virtual_point": f"{expr()} + 0.5*value"}
+                if k == "expr-mixed":
+                    return {"type": "mixed_expression", "value": expr(), "const": expr()}
+                if k == "expr-value":
+                    return {"value_expression": expr()}
+                if k == "expr-derivative":
+                    return {"derivative_expression": expr()}
                 if k == "neumann":
                     return {"derivative": 0}
                 if k == "dirichlet":
@@ -857,15 +888,17 @@ def compare_mesh(ctx, spec, obs, ans):
     if m is not None:
         for key in ("dec", "len", "idx", "id_back", "slices", "slices_ghost", "box", "box_ghost", "sub_shape",
                     "neighbors", "flags"):
-            if m[key] != obs[key]:
+            if key not in obs:
+                bad.append((key, m[key], "not observed: " + str(obs.get("raised"))[:200]))
+            elif m[key] != obs[key]:
                 bad.append((key, m[key], obs[key]))
         if not m["contract"]:
             bad.append(("contract", True, obs["axes"]))
         if m["shape"] != list(spec["shape"]):
             bad.append(("shape", m["shape"], spec["shape"]))
-        if any(p != m["sub_periodic"] for p in obs["sub_periodic"]):
+        if any(p != m["sub_periodic"] for p in obs.get("sub_periodic", [])):
             bad.append(("sub_periodic", m["sub_periodic"], obs["sub_periodic"]))
-    b = need("bounds")
+    b = need("bounds") if "sub_volume" in obs else None
     kind = KINDS[spec["cls"]]
     if b is not None:
         scale = max(1.0, max(abs(float(v)) for bb in spec["bounds"] for v in bb))
@@ -886,6 +919,9 @@ def compare_mesh(ctx, spec, obs, ans):
                 bad.append((f"sub_volume[{i}]", mv, obs["sub_volume"][i]))
                 break
     for tag in ("", "_ghost"):
+        if "extract" + tag not in obs or "combine_marked" + tag not in obs:
+            bad.append(("extract/combine" + tag, "model answer", "not observed: " + str(obs.get("raised"))[:200]))
+            continue
         e = need("extract" + tag)
         if e is not None and e != obs["extract" + tag]:
             i = next((i for i, (a, c) in enumerate(zip(e, obs["extract" + tag])) if a != c), None)
@@ -976,12 +1012,13 @@ def run(ctx):
     specs = gen_mesh_specs(ctx)
     obs_list = run_many("harness.c17", "mesh_worker", specs, env=env, procs=16)
     mesh_req_index = []
+    for k_, obs in enumerate(obs_list):
+        if isinstance(obs, str):  # the worker itself crashed while driving the real code
+            obs_list[k_] = {"error": None, "monitor": ["the real code raised: " + obs[-300:]], "raised": obs, "len": 0}
     for sp, obs in zip(specs, obs_list):
-        if isinstance(obs, str):
-            raise RuntimeError(obs)
         case = case_key(sp)
         dimn = len(sp["shape"])
-        ntriv = obs["error"] is None and obs["len"] >= 2
+        ntriv = obs["error"] is None and obs.get("len", 0) >= 2
         ctx.count(dict(case, leg="mesh", fields=sp.get("fields")), nontrivial=ntriv, leg=f"mesh-{dimn}d")
         ctx.hist("grid", sp["cls"])
         ctx.hist("dim", dimn)
@@ -991,8 +1028,8 @@ def run(ctx):
                              "from_grid raised for an admissible decomposition", key={"call_site": "GridMesh.from_grid"})
             mesh_req_index.append(None)
             continue
-        ctx.hist("nodes", obs["len"] if obs["len"] <= 12 else ">12")
-        ax = obs["axes"]
+        ctx.hist("nodes", obs.get("len", 0) if obs.get("len", 0) <= 12 else ">12")
+        ax = obs.get("axes") or []
         if any(len(set(a)) > 1 for a in ax):
             ctx.hist("branch", "uneven chunk sizes")
         if any(1 in a and len(a) > 1 for a in ax):
@@ -1012,17 +1049,24 @@ def run(ctx):
         for p in probs[:3]:
             ctx.monitor_fail("mesh", case, {"problem": p, "axes": obs["axes"]}, "property statement",
                              "tiling / split-combine identity / neighbours", key={"call_site": "GridMesh"})
+        if "axes" not in obs:
+            mesh_req_index.append(None)
+            continue
         base = {"axes": obs["axes"], "periodic": list(sp["periodic"])}
         start = len(reqs)
         names = ["mesh", "bounds", "extract", "extract_ghost", "combine", "combine_ghost"]
         reqs.append(("c17.mesh", base))
-        reqs.append(("c17.bounds", dict(base, kind=KINDS[sp["cls"]], bounds=[[q(v) for v in b] for b in obs["base_bounds"]])))
+        bb = obs.get("base_bounds") or sp["bounds"]
+        reqs.append(("c17.bounds", dict(base, kind=KINDS[sp["cls"]], bounds=[[q(v) for v in b] for b in bb])))
         nfull = int(np.prod([n + 2 for n in sp["shape"]]))
         nval = int(np.prod(sp["shape"]))
         reqs.append(("c17.extract", dict(base, ghost=False, data=list(range(nval)))))
         reqs.append(("c17.extract", dict(base, ghost=True, data=list(range(nfull)))))
         for tag in ("", "_ghost"):
-            subs = [[1000 * (i + 1) + k for k in range(len(e["data"]))] for i, e in enumerate(obs["extract" + tag])]
+            # marked sub-arrays of the model's own box sizes (the real ones may be wrong or missing)
+            sizes_per_node = [math.prod(obs["axes"][ax][k] + (2 if tag else 0) for ax, k in enumerate(idx))
+                              for idx in itertools.product(*[range(len(a)) for a in obs["axes"]])]
+            subs = [[1000 * (i + 1) + k for k in range(nn)] for i, nn in enumerate(sizes_per_node)]
             reqs.append(("c17.combine", dict(base, ghost=(tag != ""), subs=subs)))
         mesh_req_index.append((start, names))
 
@@ -1129,7 +1173,8 @@ def run(ctx):
     ops = gen_op_specs(ctx)
     op_obs = run_many("harness.c17", "op_worker", ops, env=env, procs=16)
     njit = ctx.budget(4, 16)
-    jit_specs = [dict(s) for s in ops if math.prod(s["dec"]) in (2, 3) and s["op"] in ("laplace", "gradient", "divergence")][:njit]
+    jit_specs = [dict(s) for s in ops if math.prod(s["dec"]) in (2, 3) and s["op"] in ("laplace", "gradient", "divergence")
+                 and "expr" not in json.dumps(s["bc"]) and "virtual_point" not in json.dumps(s["bc"])][:njit]
     jit_obs = run_many("harness.c17", "op_worker", jit_specs, env={"OMP_NUM_THREADS": "1", "NUMBA_NUM_THREADS": "1"},
                        procs=min(16, max(1, len(jit_specs)))) if jit_specs else []
     reqs2, idx2 = [], []
@@ -1141,6 +1186,8 @@ def run(ctx):
             ok = ob["error"] is None
             ctx.count(case, nontrivial=ok and ob.get("len", 1) >= 2 and ob.get("nonzero", False), leg=f"operator-{mode}")
             ctx.hist("operator", f"{KINDS[sp['cls']]}:{sp['op']}")
+            for side in sp["bc"].values():
+                ctx.hist("bc", side if isinstance(side, str) else side.get("type") or next(iter(side)))
             ctx.monitor_evals += 1
             if not ok:
                 cls_ = ob["error_class"]
@@ -1154,6 +1201,13 @@ def run(ctx):
                                      "boundary conditions of a vector/tensor field can be built on every sub-grid",
                                      "periodic BC of an unsplit axis loses its rank on the sub-grid",
                                      key={"call_site": "_PeriodicBC.to_subgrid", "symptom": "rank dropped"})
+                    continue
+                if cls_ == "expression-const":
+                    ctx.hist("operator-outcome", "TypeError: value/derivative expression BC cannot be moved to a sub-grid")
+                    ctx.monitor_fail("operator", case, {"error": ob["error"][:300], "stage": ob["stage"]},
+                                     "the global boundary condition can be stated on every sub-grid with an outer face",
+                                     "value_expression/derivative_expression BC cannot be transferred to a sub-grid",
+                                     key={"call_site": "ExpressionBC.to_subgrid", "symptom": "const kwarg"})
                     continue
                 ctx.hist("operator-outcome", f"error at stage {ob['stage']}")
                 ctx.monitor_fail("operator", case, {"error": ob["error"], "stage": ob["stage"]},
